@@ -21,7 +21,8 @@ CRATES = {
              "rustflags": "", "test_args": ["--features", "testing"]},
     "transport": {"dir": "quic/s2n-quic-transport", "pkg": "s2n-quic-transport", "kani_args": [],
                   "rustflags": '--cfg feature="testing"', "test_args": []},
-    "dc": {"dir": "dc/s2n-quic-dc", "pkg": "s2n-quic-dc", "kani_args": [], "rustflags": "", "test_args": []},
+    "dc": {"dir": "dc/s2n-quic-dc", "pkg": "s2n-quic-dc", "kani_args": [], "rustflags": "", "test_args": [],
+           "kani_rustflags": ""},
     "crypto": {"dir": "quic/s2n-quic-crypto", "pkg": "s2n-quic-crypto", "kani_args": [], "rustflags": "",
                "test_args": []},
     "codec": {"dir": "common/s2n-codec", "pkg": "s2n-codec", "kani_args": ["--features", "testing"],
@@ -38,6 +39,15 @@ MANIFEST_EDITS = {
         ('s2n-quic-core = { version = "=0.88.0", path = "../s2n-quic-core", features = ["alloc"], default-features = false }',
          's2n-quic-core = { version = "=0.88.0", path = "../s2n-quic-core", features = ["alloc", "testing"], default-features = false }'),
         ('[dependencies]\n', '[dependencies]\nbolero = "0.13"\n'),
+    ],
+    # the Kani build sets `--cfg feature="testing"` for every crate of the scratch workspace (one RUSTFLAGS value, so
+    # that crates sharing the target directory do not rebuild each other): the crypto crate's dependencies then need
+    # the real `testing` features (std, generators) as well, exactly as for the transport crate
+    "quic/s2n-quic-crypto/Cargo.toml": [
+        ('s2n-codec = { version = "=0.88.0", path = "../../common/s2n-codec", default-features = false }',
+         's2n-codec = { version = "=0.88.0", path = "../../common/s2n-codec", features = ["testing"], default-features = false }'),
+        ('s2n-quic-core = { version = "=0.88.0", path = "../s2n-quic-core", default-features = false }',
+         's2n-quic-core = { version = "=0.88.0", path = "../s2n-quic-core", features = ["alloc", "testing"], default-features = false }'),
     ],
 }
 
